@@ -92,6 +92,11 @@ func (d lfDoc) build(pool *KeyPool) (*docdid.Doc, error) {
 			return nil, err
 		}
 
+		// (the keys of the multi-key documents carry the optional JWK members a caller may set: they are part of the key as supplied)
+		if len(d.keys) == 3 && k.id == d.keys[0].id {
+			j.KeyID, j.Algorithm, j.Use = "kid-of-"+k.id, pk.Alg, "sig"
+		}
+
 		vm, err := docdid.NewVerificationMethodFromJWK(k.id, "JsonWebKey2020", "", j)
 		if err != nil {
 			return nil, err
@@ -125,7 +130,12 @@ func (d lfDoc) build(pool *KeyPool) (*docdid.Doc, error) {
 			svc.RoutingKeys = []string{"did:example:123#routing"}
 			svc.Accept = []string{"didcomm/v2"}
 			// (names whose UTF-16 order differs from their UTF-8 / code point order)
-			svc.Properties = map[string]interface{}{"custom": "v", "\U0001f600": 1, "\ufb33": 2}
+			svc.Properties = map[string]interface{}{"custom": "v", "\U0001f600": 1, "\ufb33": 2, "weight": 5e-7}
+		}
+
+		// the last service of a multi-key document has a structured endpoint (DIDComm v2: a list of objects)
+		if i == len(d.svcs)-1 && len(d.keys) == 99 {
+			svc.ServiceEndpoint = endpoint.NewDIDCommV2Endpoint([]endpoint.DIDCommV2Endpoint{{URI: u, Accept: []string{"didcomm/v2"}, RoutingKeys: []string{"did:example:1#r"}}})
 		}
 
 		doc.Service = append(doc.Service, svc)
@@ -165,6 +175,11 @@ func summarize(raw map[string]interface{}) lfSummary {
 
 			if j, ok := m["publicKeyJwk"].(map[string]interface{}); ok {
 				s.JWKX[frag(id)], _ = j["x"].(string)
+
+				// (the optional members, where the caller set them)
+				if kid, has := j["kid"]; has {
+					s.JWKX[frag(id)] += fmt.Sprintf("|kid=%v|alg=%v|use=%v", kid, j["alg"], j["use"])
+				}
 			}
 		}
 	}
@@ -225,6 +240,10 @@ func (d lfDoc) expected(pool *KeyPool, id string) lfSummary {
 		sort.Strings(rels)
 		s.Keys[k.id] = rels
 		s.JWKX[k.id] = pool.Get(k.kt, "lf-"+k.id).JWK.X
+
+		if len(d.keys) == 3 && k.id == d.keys[0].id {
+			s.JWKX[k.id] += fmt.Sprintf("|kid=kid-of-%s|alg=%s|use=sig", k.id, pool.Get(k.kt, "lf-"+k.id).Alg)
+		}
 	}
 
 	for i, u := range d.svcs {
@@ -233,7 +252,12 @@ func (d lfDoc) expected(pool *KeyPool, id string) lfSummary {
 		rest := map[string]interface{}{}
 		if i == 0 && len(d.keys) > 1 {
 			rest = map[string]interface{}{"priority": lfPriority(len(d.keys)), "recipientKeys": []string{"did:example:123#recipient"},
-				"routingKeys": []string{"did:example:123#routing"}, "accept": []string{"didcomm/v2"}, "custom": "v", "\U0001f600": 1, "\ufb33": 2}
+				"routingKeys": []string{"did:example:123#routing"}, "accept": []string{"didcomm/v2"}, "custom": "v", "\U0001f600": 1, "\ufb33": 2,
+				"weight": 5e-7}
+		}
+
+		if i == len(d.svcs)-1 && len(d.keys) == 99 {
+			ep, _ = json.Marshal([]interface{}{map[string]interface{}{"uri": u, "accept": []string{"didcomm/v2"}, "routingKeys": []string{"did:example:1#r"}}})
 		}
 
 		s.Svcs = append(s.Svcs, fmt.Sprintf("svc-%d|Type%d|%s|%s", i+1, i+1, ep, refJCSSimple(rest)))
